@@ -57,6 +57,12 @@ Theorem C04_chained_shortest : forall b x, chained_denote b = Some x ->
 Proof. exact chained_shortest. Qed.
 Print Assumptions C04_chained_shortest.
 
+(* one encoding: a denoting string of the encoder's length IS the encoder's output *)
+Theorem C04_chained_unique : forall b x, chained_denote b = Some x ->
+  N.of_nat (length b) = chained_len x -> b = chained_put x.
+Proof. exact chained_unique. Qed.
+Print Assumptions C04_chained_unique.
+
 Theorem C04_chained_injective : forall x y, x < 18446744073709551616 -> y < 18446744073709551616 ->
   chained_put x = chained_put y -> x = y.
 Proof. exact chained_injective. Qed.
@@ -71,6 +77,11 @@ Theorem C04_csimple_shortest : forall b x, csimple_denote b = Some x ->
   csimple_length x <= N.of_nat (length b).
 Proof. exact csimple_shortest. Qed.
 Print Assumptions C04_csimple_shortest.
+
+Theorem C04_csimple_unique : forall b x, csimple_denote b = Some x ->
+  N.of_nat (length b) = csimple_length x -> b = csimple_encode64 x.
+Proof. exact csimple_unique. Qed.
+Print Assumptions C04_csimple_unique.
 
 Theorem C04_csimple_injective : forall x y, x < 18446744073709551616 -> y < 18446744073709551616 ->
   csimple_encode64 x = csimple_encode64 y -> x = y.
